@@ -47,7 +47,7 @@ theorem writeChunks_cells : ∀ (leaves : List LeafInfo) (cls : List ChunkLayout
         subst hw
         simp only at husz
         have hcl := hpl cl (by simp)
-        obtain ⟨dp, pages, hdp, hpages, hwf, hcodecs, hdictc, hbytes, hmeta, horacle, hend⟩ := writeChunk_adm hcl hc
+        obtain ⟨dp, pages, hdp, hpages, hwf, hcodecs, hdictc, hbytes, hmeta, horacle, hend, _⟩ := writeChunk_adm hcl hc
         obtain ⟨ds', hds', hok', hend', hl1, hl2, hl3, hcells⟩ := writeChunks_cells ls cls ess c.endPos g'
           (fun x hx => hpl x (by simp [hx])) hr (fun x hx => husz x (by simp [hx]))
         have hdok := chunkDesc_ok leaf cl es pos dp pages hcl
@@ -110,13 +110,13 @@ theorem writeGroups_cells (leaves : List LeafInfo) (extra : File.Fields) (hx : e
           simp only [hwc, hr, Option.some.injEq] at hw
           subst hw
           simp only at husz
-          have husz0 := Carquet.Proofs.SpecFile.rgUsizeOk_withExtras o.metas o.bytes.length (groupRows leaves g) extra hx
+          have husz0 := Carquet.Proofs.SpecFile.rgUsizeOk_withExtras o.metas o.usize (groupRows leaves g) extra hx
             (husz _ (by simp))
           obtain ⟨ms, hms, hmok, hend, hl1, hl2, hl3, hcells⟩ := writeChunks_cells leaves cls g.chunks pos o (hpl cls (by simp))
             hwc husz0
           obtain ⟨ds', hds', hok', hend', hnr', hl4, hl5, hcells'⟩ := writeGroups_cells leaves extra hx r gs o.endPos rest
             (fun x hx' => hpl x (by simp [hx'])) hr (fun x hx' => husz x (by simp [hx']))
-          refine ⟨⟨ms, o.bytes.length, groupRows leaves g, extra⟩ :: ds', ?_, ?_, ?_, ?_, ?_, ?_, ?_⟩
+          refine ⟨⟨ms, o.usize, groupRows leaves g, extra⟩ :: ds', ?_, ?_, ?_, ?_, ?_, ?_, ?_⟩
           · simp only [List.map_cons, hds', hms]
             rfl
           · intro d hd
